@@ -55,14 +55,14 @@ def check(run):
         return m, nd, warned
 
     # (b) no silent failure over the wide domain
-    wideT = [200, 300, 500, 1000, 3000, 10000, 30000, 60000]
-    wideP = [1e2, 1e4, 101325.0, 1e6, 1e8]
+    wideT = ([200, 300, 500, 1000, 3000, 10000, 30000, 60000] if thorough else [200, 300, 1000, 10000, 60000])
+    wideP = ([1e2, 1e4, 101325.0, 1e6, 1e8] if thorough else [1e2, 101325.0, 1e8])
     shipped_sets = [([gen.shipped(n) for n in gen.OXY], gen.OXY_X0), ([gen.shipped(n) for n in gen.SICO], gen.SICO_X0)]
     wide_cases = [(sps, x0, T, P) for sps, x0 in shipped_sets for T in wideT for P in wideP]
-    for sps, x0, T, P, kind in sc.cases(rng, 300 if thorough else 60, Trange=(200.0, 60000.0), Prange=(1e2, 1e8)):
+    for sps, x0, T, P, kind in sc.cases(rng, 300 if thorough else 30, Trange=(200.0, 60000.0), Prange=(1e2, 1e8)):
         wide_cases.append((sps, x0, T, P))
     for sps, x0, T, P in wide_cases:
-        ctl = (10 ** rng.uniform(5, 30), 10 ** rng.uniform(-14, -8), rng.choice([3, 50, 200, 1000, 5000])) if rng.random() < 0.5 else solver.DEFAULT_CONTROLS
+        ctl = (10 ** rng.uniform(5, 30), 10 ** rng.uniform(-14, -8), rng.choice([3, 50, 200, 1000, 5000] if thorough else [3, 50, 200])) if rng.random() < 0.5 else solver.DEFAULT_CONTROLS
         m, nd, warned = do(sps, x0, T, P, ctl, "wide")
         if not warned:
             v = violates(m, nd, x0)
@@ -83,8 +83,10 @@ def check(run):
                 m, ref, w = do(sps, x0, float(T), P, solver.DEFAULT_CONTROLS, "controls")
                 if w:
                     continue
-                for ctl in [(1e5, 1e-10, 1000), (1e10, 1e-10, 1000), (1e25, 1e-10, 1000), (1e30, 1e-10, 1000),
-                            (1e20, 1e-8, 1000), (1e20, 1e-12, 5000), (1e20, 1e-14, 5000)]:
+                ctls = [(1e5, 1e-10, 1000), (1e10, 1e-10, 1000), (1e25, 1e-10, 1000), (1e30, 1e-10, 1000), (1e20, 1e-8, 1000), (1e20, 1e-12, 1000)]
+                if thorough:
+                    ctls += [(1e20, 1e-12, 5000), (1e20, 1e-14, 5000), (1e15, 1e-9, 50)]
+                for ctl in ctls:
                     m2, nd2, w2 = do(sps, x0, float(T), P, ctl, "controls")
                     if w2:
                         continue
